@@ -17,6 +17,10 @@ func stateJSchema(s *Scanner, _ byte) *jerr.JApiError {
 		return je
 	}
 	if schemaLength > 0 {
+		body := s.file.Content().Sub(s.curIndex, s.curIndex+bytes.Index(schemaLength)).Data()
+		if i, ok := schemaNestingExceeded(body); ok {
+			return s.japiError(jerr.SchemaNestingIsTooDeep, s.curIndex+bytes.Index(i))
+		}
 		s.curIndex += bytes.Index(schemaLength - 1)
 	}
 	s.step = stateSchemaClosed
@@ -33,4 +37,62 @@ func (s *Scanner) readSchemaWithJsc() (uint, *jerr.JApiError) {
 		return 0, s.japiError(err.Message(), s.curIndex+bytes.Index(err.Index()))
 	}
 	return l, nil
+}
+
+// maxSchemaNesting is the deepest nesting of objects and arrays a schema may
+// have. Each level of a schema takes two levels of the exchange JSON, which
+// encoding/json refuses to produce beyond 10000 levels, and the schema is
+// processed recursively: without a limit a small document of nothing but
+// opening brackets exhausts the stack of the process.
+const maxSchemaNesting = 4900
+
+// schemaNestingExceeded returns the index of the bracket which opens a level
+// deeper than maxSchemaNesting. The brackets inside strings, annotations and
+// comments are not counted.
+func schemaNestingExceeded(b []byte) (int, bool) {
+	depth := 0
+	skipTo := func(i int, end string) int {
+		for ; i < len(b); i++ {
+			if b[i] == end[0] && i+len(end) <= len(b) && string(b[i:i+len(end)]) == end {
+				return i + len(end) - 1
+			}
+		}
+		return i
+	}
+	skipLine := func(i int) int {
+		for ; i < len(b) && !IsNewLine(b[i]); i++ {
+		}
+		return i
+	}
+	for i := 0; i < len(b); i++ {
+		switch b[i] {
+		case '"':
+			for i++; i < len(b) && b[i] != '"'; i++ {
+				if b[i] == '\\' {
+					i++
+				}
+			}
+		case '/':
+			switch {
+			case i+1 < len(b) && b[i+1] == '/':
+				i = skipLine(i)
+			case i+1 < len(b) && b[i+1] == '*':
+				i = skipTo(i+2, "*/")
+			}
+		case '#':
+			if i+2 < len(b) && b[i+1] == '#' && b[i+2] == '#' {
+				i = skipTo(i+3, "###")
+			} else {
+				i = skipLine(i)
+			}
+		case '{', '[':
+			depth++
+			if depth > maxSchemaNesting {
+				return i, true
+			}
+		case '}', ']':
+			depth--
+		}
+	}
+	return 0, false
 }
